@@ -8951,10 +8951,18 @@ TraverseSchema::checkElemDeclValueConstraint(const DOMElement* const elem,
             contentSpecType != SchemaElementDecl::Mixed_Complex)
             reportSchemaError(elem, XMLUni::fgXMLErrDomain, XMLErrs::NotSimpleOrMixedElement, elemDecl->getBaseName());
 
-        if (((contentSpecType == SchemaElementDecl::Mixed_Complex
-             || contentSpecType == SchemaElementDecl::Mixed_Simple)
-            && !emptiableParticle(typeInfo->getContentSpec())))
-            reportSchemaError(elem, XMLUni::fgXMLErrDomain, XMLErrs::EmptiableMixedContent, elemDecl->getBaseName());
+        if (contentSpecType == SchemaElementDecl::Mixed_Complex
+            || contentSpecType == SchemaElementDecl::Mixed_Simple)
+        {
+            if (!emptiableParticle(typeInfo->getContentSpec()))
+                reportSchemaError(elem, XMLUni::fgXMLErrDomain, XMLErrs::EmptiableMixedContent, elemDecl->getBaseName());
+            else if (!validator)
+            {
+                // the value constraint of mixed content is a string, which
+                // the declaration already holds: there is nothing to validate
+                isValid = true;
+            }
+        }
     }
 
     return isValid;
